@@ -243,7 +243,15 @@ type Net struct {
 	dead     bool
 	inflight int32
 	lastRPC  atomic.Int64 // unix nano of the last traced RPC activity
+	burst    int          // traced requests since the last Arm / Disarm
 }
+
+// RunawayLimit is the number of requests one API call (or the background work between two calls) of one client may
+// issue before the case is declared non-terminating. Back-off sleeps are virtual, so every legitimate call is bounded
+// by its back-off budget - a few hundred requests at most; the limit is a count, not a time-out.
+const RunawayLimit = 30000
+
+var errRunaway = errors.New("sim: request limit of the call exceeded (runaway)")
 
 func traced(t tikvrpc.CmdType) bool {
 	switch t {
@@ -257,6 +265,7 @@ func traced(t tikvrpc.CmdType) bool {
 func (n *Net) Arm(callID int, txnStart uint64, plan []*Fault) {
 	n.mu.Lock()
 	n.plan, n.planTxn, n.counts, n.total, n.callID = plan, txnStart, map[tikvrpc.CmdType]int{}, 0, callID
+	n.burst = 0
 	n.mu.Unlock()
 }
 
@@ -318,6 +327,7 @@ func reqTxn(req *tikvrpc.Request) uint64 {
 func (n *Net) Disarm() {
 	n.mu.Lock()
 	n.plan, n.planTxn, n.callID = nil, 0, 0
+	n.burst = 0
 	n.mu.Unlock()
 }
 
@@ -388,6 +398,23 @@ func (n *Net) send(ctx context.Context, addr string, req *tikvrpc.Request, timeo
 		atomic.AddInt32(&n.inflight, -1)
 	}()
 	n.mu.Lock()
+	n.burst++
+	if n.burst > RunawayLimit {
+		first := n.burst == RunawayLimit+1
+		n.mu.Unlock()
+		if first {
+			es := n.cl.Trace.Since(0)
+			if len(es) > 12 {
+				es = es[len(es)-12:]
+			}
+			var tail []string
+			for _, e := range es {
+				tail = append(tail, DescribeEntry(e))
+			}
+			n.cl.noteRunaway(fmt.Sprintf("client %d issued more than %d requests within one call (call id %d) without finishing; the last ones:\n    %s", n.id, RunawayLimit, n.callID, strings.Join(tail, "\n    ")))
+		}
+		return nil, errRunaway, nil
+	}
 	all := n.total
 	n.total++
 	// typed faults address the i-th request of a type issued on behalf of the armed transaction: background
@@ -504,6 +531,23 @@ type Cluster struct {
 	basePD  pd.Client
 	stores  []uint64
 	calls   int
+	runMu   sync.Mutex
+	runaway string
+}
+
+func (cl *Cluster) noteRunaway(msg string) {
+	cl.runMu.Lock()
+	if cl.runaway == "" {
+		cl.runaway = msg
+	}
+	cl.runMu.Unlock()
+}
+
+// Runaway reports the first call that exceeded RunawayLimit ("" = none).
+func (cl *Cluster) Runaway() string {
+	cl.runMu.Lock()
+	defer cl.runMu.Unlock()
+	return cl.runaway
 }
 
 type uniWrapper struct{ *unistore.RPCClient }
